@@ -21,7 +21,9 @@ ID = "C07"
 TECHNIQUE = "exhaustive crash-point enumeration: one cancellation injected at every quiescent point of every schedule of the real scope program (DFS, prefix replay); exhaustive script enumeration for check_cancellation"
 RULE = (
     "victim task running 1-2 nested scopes (async / sync / update) with 0-2 disposables "
-    "(suspending in enter and/or exit) and 0-2 spawned tasks; one cancel(victim) at every "
+    "(suspending in enter and/or exit, or raising from exit) and 0-2 spawned tasks (returning, "
+    "failing, spawning a grandchild, failing while being cancelled, needing one more suspension to "
+    "finish their cancellation), body returning or failing; one cancel(victim) at every "
     "quiescent point of every interleaving; plus all scripts of length <= 4 over {ctx.cancel, "
     "task.cancel, pause, check}; non-trivial = the cancellation was delivered while the victim "
     "was inside a scope's enter, body or exit"
